@@ -2,11 +2,11 @@
    Proved here: the full statement for every primitive field (any kind x encoding x the 43 prefixers x padding,
    any in-domain value, arbitrary trailing bytes, arbitrary prior state of the object, identical re-pack).
    and, by induction over the specification, for every nested field specification whose composites are tagged
-   (TLV, any tag encoding that reads back: tag_rt_value, tag_rt_ber) or positional: C01_field_roundtrip.
+   (TLV, any tag encoding that reads back: tag_rt_value, tag_rt_ber), positional, or carry a (fixed) bitmap of
+   subfields with canonical decimal ids: C01_field_roundtrip.
    and for whole messages (MTI, auto-expanding bitmap of 1..n blocks in Binary or Hex, data elements over any such
    field specification): C01_message_roundtrip.
-   Not covered by a theorem: composites with a bitmap of subfields, fixed (non-expanding) message bitmaps, track
-   fields, and the identical re-pack at message level (proved per field); these are tied to the library by
+   Not covered by a theorem: fixed (non-expanding) message bitmaps and track fields; these are tied to the library by
    correspondence and exercised by the property oracle. *)
 From Iso Require Import Model.Base Model.Padding Model.Encoding Model.Prefix Model.Bitmap Model.Spec Model.Field Model.Message
      Proofs.BaseLemmas Proofs.PrefixProofs Proofs.FieldProofs Proofs.CompositeProofs Proofs.MessageRoundtrip.
@@ -44,6 +44,12 @@ Theorem C01_message_roundtrip : forall S m m' b, msg_coherent S -> msg_in_dom S 
 Proof. exact message_roundtrip. Qed.
 Print Assumptions C01_message_roundtrip.
 
+(* ... and packing the unpacked message returns the identical bytes *)
+Theorem C01_message_repack : forall S m m' b, msg_coherent S -> msg_in_dom S m -> m_pack S m = (m', Ok b) ->
+  forall m0 rest, msg_shaped S m0 -> snd (m_pack S (fst (m_unpack S m0 (b ++ rest)))) = Ok b.
+Proof. exact message_repack. Qed.
+Print Assumptions C01_message_repack.
+
 (* non-vacuity, and instances of the composite / message level by computation *)
 Definition p_ex : pspec := {| ps_kind := KString; ps_enc := EncBCD; ps_pref := PVar PfBinary 5; ps_len := 300; ps_pad := PadNone; ps_packer := PkDefault |}.
 Example C01_ex_prim : coherent_pspec p_ex /\ prim_pack p_ex (SString [x31; x32; x33]) = Ok [x00; x00; x00; x00; x03; x01; x23].
@@ -76,3 +82,22 @@ Proof.
     + split; [change (0 <= 42 <= max_int); unfold max_int; lia|]. exists (itoa 42). repeat split; vm_compute; congruence.
     + split; [exact I|]. exists [xab]. repeat split; vm_compute; congruence.
 Qed.
+
+(* a composite with a bitmap of subfields: coherent, and an instance of the round trip *)
+Definition c_bm : fspec :=
+  FComp (PVar PfASCII 2) 99 (CBitmap {| bm_len := 1; bm_auto := false; bm_enc := EncBinary; bm_pref := PFixed PfBinary |})
+        [([x31], FPrim {| ps_kind := KString; ps_enc := EncASCII; ps_pref := PVar PfASCII 1; ps_len := 5; ps_pad := PadNone; ps_packer := PkDefault |});
+         ([x33], FPrim {| ps_kind := KNumeric; ps_enc := EncASCII; ps_pref := PVar PfASCII 1; ps_len := 4; ps_pad := PadNone; ps_packer := PkDefault |})].
+Example C01_ex_bm_coherent : coherent c_bm.
+Proof.
+  cbn [coherent c_bm]. split; [cbn; lia|]. split; [repeat constructor; cbn; intuition discriminate|]. split.
+  - cbn [bm_auto bm_len bm_enc bm_pref]. split; [reflexivity|]. split; [lia|]. split; [left; reflexivity|]. split; [eexists; reflexivity|].
+    intros tag [<-|[<-|[]]]; [exists 1|exists 3]; (split; [unfold max_int; lia|vm_compute; reflexivity]).
+  - repeat split; cbn; try lia; reflexivity.
+Qed.
+Example C01_ex_bm :
+  let st := SComp [[x33]] [([x31], SString []); ([x33], SNumeric 42)] in
+  exists b, pack_f c_bm st = Ok b /\ b = [x30; x34; x20; x32; x34; x32] /\
+            fst (unpack_f c_bm (fresh c_bm) (b ++ [xff])) = SComp [[x33]] [([x31], SString []); ([x33], SNumeric 42)] /\
+            snd (unpack_f c_bm (fresh c_bm) (b ++ [xff])) = UOk (zlen b).
+Proof. eexists. split; [vm_compute; reflexivity|]. split; [reflexivity|]. split; vm_compute; reflexivity. Qed.
